@@ -362,6 +362,7 @@ def run_t8_t9(chk, repo):
     run_t12(chk, repo)
     run_t13_t14(chk, repo)
     run_t15_t16(chk, repo)
+    run_t17(chk, repo)
 
 
 def run_t10(chk, repo):
@@ -710,3 +711,61 @@ def run_t15_t16(chk, repo):
                                           'statement and an extra POP_MDT parameter')
     if n == 0:
         raise AnalysisError('T16: the cleanup of the previous lag time was not found in add_lag_time')
+
+
+def run_t17(chk, repo):
+    """T17: remove_unused_parameters_and_rvs (the last step of every structural setter) keeps an unused parameter only when it
+    is a placeholder, i.e. fixed AND zero; a fixed non-zero parameter whose definition was removed (POP_KM of zero-order
+    elimination) must go, or the detectors (has_zero_order_elimination: 'POP_KM in parameters and fixed') misreport later."""
+    T17 = chk.rule('T17', '_get_unused_parameters_and_rvs: the keep-although-unused test on <p>.fix is conjoined with '
+                          '<p>.init == 0', floor=1)
+    m = repo.module('pharmpy.modeling.common')
+    f = m.functions.get('_get_unused_parameters_and_rvs')
+    if f is None:
+        raise AnalysisError('T17: _get_unused_parameters_and_rvs not found')
+    parents = {}
+    for p in ast.walk(f.node):
+        for ch in ast.iter_child_nodes(p):
+            parents[ch] = p
+    fixes = [a for a in ast.walk(f.node) if isinstance(a, ast.Attribute) and a.attr == 'fix' and isinstance(a.ctx, ast.Load)]
+    if not fixes:
+        raise AnalysisError('T17: no read of <parameter>.fix in _get_unused_parameters_and_rvs')
+
+    def zero_init(e, subj):
+        return any(isinstance(c, ast.Compare) and len(c.ops) == 1 and isinstance(c.ops[0], ast.Eq)
+                   and {type(c.left), type(c.comparators[0])} == {ast.Attribute, ast.Constant}
+                   and any(isinstance(x, ast.Attribute) and x.attr == 'init' and unparse(x.value) == subj
+                           for x in (c.left, c.comparators[0]))
+                   and any(isinstance(x, ast.Constant) and x.value == 0 and x.value is not False
+                           for x in (c.left, c.comparators[0]))
+                   for c in ast.walk(e))
+    for a in fixes:
+        subj = unparse(a.value)
+        n, conj = a, None
+        while n in parents:
+            p = parents[n]
+            if isinstance(p, ast.BoolOp) and isinstance(p.op, ast.And):
+                conj = p
+                break
+            if isinstance(p, (ast.stmt, ast.comprehension, ast.Lambda)) or (isinstance(p, ast.BoolOp) and isinstance(p.op, ast.Or)) \
+                    or (isinstance(p, ast.UnaryOp) and isinstance(p.op, ast.Not)):
+                break
+            n = p
+        # a nested `if p.fix: if p.init == 0:` counts as a conjunction
+        if conj is None:
+            st = a
+            while st in parents and not isinstance(st, ast.stmt):
+                st = parents[st]
+            if isinstance(st, ast.If) and any(a is x for x in ast.walk(st.test)) and len(st.body) == 1 \
+                    and isinstance(st.body[0], ast.If) and zero_init(st.body[0].test, subj):
+                conj = st.body[0].test
+            up = parents.get(st)
+            if conj is None and isinstance(up, ast.If) and st in up.body and len(up.body) == 1 and zero_init(up.test, subj):
+                conj = up.test
+        ok = conj is not None and zero_init(conj, subj)
+        chk.instance(T17, f'_get_unused_parameters_and_rvs: {unparse(conj if conj is not None else a)[:60]}: fixed and zero: {ok}')
+        if not ok:
+            chk.violation(T17, m.rel, f.qualname, unparse(parents.get(a, a))[:80],
+                          f'every fixed parameter survives the pruning, not only the zero placeholders', line=a.lineno,
+                          witness='set_zero_order_elimination; set_first_order_elimination; set_michaelis_menten_elimination: '
+                                  'a fixed POP_KM is left behind and has_zero_order_elimination answers True for the MM model')
